@@ -342,6 +342,8 @@ func c17Judge(env *Env, open func() (quickfix.MessageStore, error), before, afte
 	fail := func(fp, format string, a ...any) {
 		env.Violate(fp, "%s: %s", what, fmt.Sprintf(format, a...))
 	}
+	resetCounterAhead := false
+	_ = resetCounterAhead
 	st, err := open()
 	if err != nil {
 		fail("C17/file/reopen-fails/"+phase, "reopening the store failed: %v", err)
@@ -411,6 +413,14 @@ func c17Judge(env *Env, open func() (quickfix.MessageStore, error), before, afte
 			if len(got) > 1 || (len(got) == 1 && !bytes.Equal(got[0], want)) {
 				fail("C17/file/torn-or-foreign-bytes", "number %d after a crash inside Reset: %d results, first %q, saved was %q", n, len(got), clip(first(got)), clip(want))
 				return
+			}
+			// "when the recovered outbound counter says number n was used, message n is retrievable intact":
+			// Reset removes the index and the body before the counter files, so a crash in between leaves the
+			// old counter with nothing behind it. (Known finding: the opposite order leaves stale index lines
+			// under a counter of 1, which is worse; an atomic reset needs a different file layout.)
+			if len(got) == 0 && n < S && S == before.S {
+				fail("C17/file/reset-leaves-counter-ahead-of-messages", "crash inside Reset: recovered NextSenderMsgSeqNum %d says number %d was used, but message %d is gone", S, n, n)
+				resetCounterAhead = true
 			}
 		case completed:
 			if len(got) != 1 || !bytes.Equal(got[0], want) {
